@@ -166,7 +166,11 @@ def run_history(exe, lines, simd=None, perturb=None):
     """perturb: glibc's MALLOC_PERTURB_ byte - fresh malloc'ed (not calloc'ed) memory and freed memory are filled with it, so that a
     result that depends on heap contents the library never wrote differs from run to run instead of reading zeros by luck"""
     env = None if simd is None and not perturb else dict(os.environ)
-    if simd is not None: env["SOXR_USE_SIMD"] = str(simd)
+    if isinstance(simd, str):          # "32=0" / "64=1" ...: the per-width overrides SOXR_USE_SIMD32 / SOXR_USE_SIMD64
+        for v in ("SOXR_USE_SIMD", "SOXR_USE_SIMD32", "SOXR_USE_SIMD64"): env.pop(v, None)
+        w, val = simd.split("=")
+        env["SOXR_USE_SIMD" + w] = val
+    elif simd is not None: env["SOXR_USE_SIMD"] = str(simd)
     if perturb: env["MALLOC_PERTURB_"] = str(perturb)
     rc, out, err = cl.run_text(exe, lines, timeout=900, env=env)
     return rc, out, err
@@ -185,7 +189,9 @@ def falsifier(ctx, ncases):
     for _ in range(ncases):
         kv, vr, hs = gen_case(ctx.rng, ctx)
         # portable engines (SOXR_USE_SIMD=0) use fft4g and its process-wide table cache; the SIMD ones use pffft set-ups
-        simd = 0 if ctx.rng.chance(.45) else None
+        # ... and the per-width overrides alone (SOXR_USE_SIMD32 / SOXR_USE_SIMD64): the engine of one precision class must not depend on
+        # what was decided for an object of the other class earlier in the process
+        simd = 0 if ctx.rng.chance(.4) else ctx.rng.choice(["32=0", "64=0", "32=1", "64=1"]) if ctx.rng.chance(.35) else None
         # heap contents the library did not write must not matter either: the fresh process runs on the untouched (zero) heap, every
         # other history with malloc'ed and freed memory filled with a byte of its own
         perturbs = [None] + [ctx.rng.choice([None, 85, 170, 255, 1]) for _ in hs[1:]]
@@ -198,7 +204,7 @@ def falsifier(ctx, ncases):
     with ThreadPoolExecutor(common.NCPU) as ex:
         results = list(ex.map(work, cases))
     for (kv, vr, hs, simd, perturbs), runs in zip(cases, results):
-        ctx.hist("case_simd", "portable(fft4g cache)" if simd == 0 else "default")
+        ctx.hist("case_simd", "portable(fft4g cache)" if simd == 0 else "SOXR_USE_SIMD" + simd if isinstance(simd, str) else "default")
         ref = None
         ctx.count("cases")
         ctx.hist("case_engine", "vr" if vr else "cr recipe %s" % kv["recipe"])
